@@ -193,6 +193,9 @@ class CdfInterp(object):
         return self.val(e.args[0])
       raise AnalysisError('%s: op %s is outside the I1 transfer table' % (
           self.fn.loc(e), x or norm_text(e.func)))
+    if isinstance(e, ast.Constant) and (e.value is None or isinstance(
+        e.value, (str, bytes))):
+      return V(-INF, INF, None)        # not a number: carries no information
     raise AnalysisError('%s: expression %s not modelled' % (
         self.fn.loc(e), type(e).__name__))
 
